@@ -455,9 +455,10 @@ def labels_of(res):
                 if evs[0][2]:
                     out.append((s["start"], t, ["exitDisposed"], None))
                 else:
-                    ids = [x[2] for x in evs if x[1] == "ready_append"]
+                    # WHAT was gathered is filled in below from what the loop then takes (start/skip) until its next gathering:
+                    # observable however the code moves items from `_ready_list`/`_queue` into its local batch
                     reads = [x[2] for x in evs if x[1] == "now_read"]
-                    out.append((pos_of("now_read", s["start"]), t, ["collect", ids, reads[0] if reads else None], None))
+                    out.append((pos_of("now_read", s["start"]), t, ["collect", None, reads[0] if reads else None], pos))
             else:
                 if k == "wait":
                     to = e[3]
@@ -505,6 +506,20 @@ def labels_of(res):
         if not sec[t].get("after_wait"):
             problems.append(f"section left open by thread {t}")
     out.sort(key=lambda x: x[0])
+    takes = {}
+    for pos, e in enumerate(events):
+        if e[0] is not None and e[1] in ("start", "skip"):
+            takes.setdefault(e[0], []).append((pos, e[2]))
+    ends = {}
+    for p, t, l, x in out:
+        if l[0] == "collect":
+            ends.setdefault(t, []).append(x)  # position at which the gathering section released the lock
+    for p, t, l, x in out:
+        if l[0] == "collect":
+            nxt = [q for q in ends[t] if q > x]
+            hi = nxt[0] if nxt else len(events)
+            l[1] = [lbl for q, lbl in takes.get(t, []) if x < q < hi]
+    out = [(p, t, l, None if l[0] == "collect" else x) for p, t, l, x in out]
     # each trace entry carries the controlled clock at the moment of the step (the driver lets that much time pass first)
     return [[t, l, clock_at[p]] for p, t, l, _ in out], problems, [[t, l, x] for _, t, l, x in out]
 
@@ -633,10 +648,23 @@ def oracle(cfg, res):
     #      submission left the ready list itself out of due order).
     sub_pos = {lbl: p for p, lbl, _ in submitted}
     is_imm = {lbl: im for _, lbl, im in submitted}
+    # the gathering that produced the batch an item was taken from = the loop thread's latest top-of-loop `_is_disposed` test
+    # (outside any schedule*/dispose call of its own) before the item is taken
     gathered_at = {}
+    last_top = {}
+    in_disp = set()
     for pos, e in enumerate(events):
-        if e[0] is not None and e[1] == "ready_append" and e[2] not in gathered_at:
-            gathered_at[e[2]] = pos
+        t, k = e[0], e[1]
+        if t is None:
+            continue
+        if k == "call":
+            in_disp.add(t)
+        elif k == "ret":
+            in_disp.discard(t)
+        elif k == "get_disposed" and t >= n and t not in in_disp and e[2] is False:
+            last_top[t] = pos
+        elif k in ("start", "skip") and e[2] not in gathered_at and t in last_top:
+            gathered_at[e[2]] = last_top[t]
     take_idx = {lbl: i for i, lbl in enumerate(taken)}
     imm_seq = [(p, lbl) for p, lbl, im in submitted if im]
     for a in taken:
